@@ -181,7 +181,7 @@ def _case_roundtrip(c, res, td, HELD):
         if kind == 'other-order' and levels:
             try:
                 tm.load('f.p', levels=True)
-            except ValueError:
+            except Exception:  # noqa: refused (the property does not fix the exception type)
                 res.count('refused-as-documented')
                 wf(tm._bdd)
                 return key
@@ -210,7 +210,7 @@ def _case_roundtrip(c, res, td, HELD):
             # the file's order does not mention every variable of the receiver: the loader refuses
             try:
                 C.load_json('f.json', tm, load_order=True)
-            except ValueError:
+            except Exception:  # noqa: refused
                 res.count('refused-as-documented')
                 wf(tm._bdd)
                 return key
